@@ -31,7 +31,7 @@ class EngineError(Exception):
 
 STATS = {"solver_calls": 0, "solver_s": 0.0, "paths": 0}
 
-SOLVER_TIMEOUT_MS = 20000
+SOLVER_TIMEOUT_MS = 8000
 
 
 def is_z3(v):
@@ -114,13 +114,17 @@ def scalar_type(sort):
 
 
 class Member:
-    __slots__ = ("idx", "elem", "cond", "origin")
+    __slots__ = ("idx", "elem", "cond", "origin", "from_concat", "serial")
+    _next = [0]
 
     def __init__(self, idx, elem, cond, origin=None):
         self.idx = idx
         self.elem = elem
         self.cond = cond
         self.origin = origin
+        self.from_concat = None
+        Member._next[0] += 1
+        self.serial = Member._next[0]
 
 
 TRUE = z3.BoolVal(True)
@@ -249,10 +253,13 @@ class FM(LTerm):
     """flatMap: for j = 0..len(src)-1 in order, emit paths[k].outs where paths[k].guard holds at j.
     Guards are mutually exclusive and exhaustive (paths that emit nothing are listed too)."""
 
-    def __init__(self, interp, src, jvar, paths, etype):
+    def __init__(self, interp, src, jvar, paths, etype, binds=()):
         super().__init__(interp, etype)
         self.src = src
         self.jvar = jvar  # z3 Int const: the source index the paths are written over
+        # binds: (const, expression over jvar) - the loop variable's components are atomic constants
+        # standing for src.at(jvar) (robust substitution, independent of z3's term normalisation)
+        self.binds = list(binds)
         self.paths = paths
         self.base = z3.Function("base!" + self.uid, INT, INT)
         self._len = self.base(src.length())
@@ -266,10 +273,12 @@ class FM(LTerm):
         return self._len
 
     def inst(self, expr, j):
+        if self.binds:
+            expr = z3.substitute(expr, *self.binds)
         return z3.substitute(expr, (self.jvar, to_z3(j)))
 
     def inst_elem(self, out, j):
-        return self.interp.elem_map(out, lambda e: z3.substitute(e, (self.jvar, to_z3(j))))
+        return self.interp.elem_map(out, lambda e: self.inst(e, j))
 
     def count(self, j):
         c = z3.IntVal(0)
@@ -307,6 +316,33 @@ class FM(LTerm):
             ctx.assume(z3.Implies(z3.And(both, om.idx < sm.idx), self.base(om.idx) + ocnt <= self.base(sm.idx)))
             ctx.assume(z3.Implies(z3.And(both, sm.idx < om.idx), self.base(sm.idx) + cnt <= self.base(om.idx)))
         self._mapped.append(sm)
+
+    def out_k(self, j, k):
+        cur = None
+        for p in self.paths:
+            if len(p.outs) > k:
+                o = self.interp.coerce_elem(self.inst_elem(p.outs[k], j), self.etype)
+                g = self.inst(p.guard, j)
+                if cur is None:
+                    cur = o
+                else:
+                    cur = self.interp.bm.ite(self.interp, g, o, cur)
+        return cur
+
+    def forward(self, sm):
+        """image of a source member: the elements it produces are members of this list"""
+        ctx = self.ctx
+        self.note_source_member(sm)
+        cnt = self.count(sm.idx)
+        for k in range(self.maxouts):
+            o = self.out_k(sm.idx, k)
+            if o is None:
+                continue
+            cond = z3.And(sm.cond, cnt > k)
+            idx = self.base(sm.idx) + k
+            m = Member(idx, self.at(idx), cond, origin=(sm, z3.IntVal(k)))
+            self.members.append(m)
+            ctx.assume(z3.Implies(cond, z3.And(self.interp.elem_eq(m.elem, o), idx >= 0, idx < self._len)))
 
     def describe(self):
         return "FM(%s,%d paths)" % (self.src.describe(), len(self.paths))
@@ -346,10 +382,21 @@ class Concat(LTerm):
             c = z3.And(m.cond, sel == k)
             pi = ctx.fresh_int("pi")
             pm = p.new_member(c, pi)
+            pm.from_concat = self
             ctx.assume(z3.Implies(c, z3.And(self.interp.elem_eq(m.elem, pm.elem), m.idx == off + pi)))
             alts.append(sel == k)
             off = off + p.length()
         ctx.assume(z3.Implies(m.cond, z3.Or(alts) if alts else z3.BoolVal(False)))
+
+    def forward(self, part_index, pm):
+        ctx = self.ctx
+        off = z3.IntVal(0)
+        for p in self.parts[:part_index]:
+            off = off + p.length()
+        idx = z3.simplify(off + pm.idx)
+        m = Member(idx, self.at(idx), pm.cond)
+        self.members.append(m)
+        ctx.assume(z3.Implies(pm.cond, z3.And(self.interp.elem_eq(m.elem, pm.elem), idx >= 0, idx < self._len)))
 
     def describe(self):
         return "Concat(%s)" % ",".join(p.describe() for p in self.parts)
@@ -429,6 +476,97 @@ class AList:
         return "AList<%s>" % self.term.describe()
 
 
+# hash-consing: structurally identical terms built twice on one path (by the real body and by the
+# spec, say) are the same object, so facts / witnesses attach to one term.
+
+PLACEHOLDER_J = z3.Int("?j")
+
+
+def _val_key(interp, v):
+    parts = interp.elem_parts(v)
+    return tuple((p.sexpr() if is_z3(p) else repr(p)) for p in parts) + (type(v).__name__,)
+
+
+def mk_fm(interp, src, jvar, paths, etype, binds=()):
+    ctx = interp.ctx
+    try:
+        pk = []
+
+        def canon(e):
+            if binds:
+                e = z3.substitute(e, *binds)
+            return z3.substitute(e, (jvar, PLACEHOLDER_J))
+        for p in paths:
+            g = canon(p.guard).sexpr()
+            outs = tuple(_val_key(interp, interp.elem_map(o, canon)) for o in p.outs)
+            pk.append((g, outs))
+        key = ("fm", id(src), tuple(sorted(pk)), repr(etype))
+    except Exception:
+        key = None
+    if key is not None and key in ctx.hc:
+        return ctx.hc[key]
+    t = FM(interp, src, jvar, paths, etype, binds)
+    if key is not None:
+        ctx.hc[key] = t
+    return t
+
+
+def mk_sorted(interp, inner, lex_le):
+    ctx = interp.ctx
+    key = ("sorted", id(inner))
+    if key in ctx.hc:
+        return ctx.hc[key]
+    t = Sorted(interp, inner, lex_le)
+    ctx.hc[key] = t
+    return t
+
+
+def mk_concat(interp, parts, etype):
+    ctx = interp.ctx
+    flat = []
+    for p in parts:
+        if isinstance(p, Concat):
+            flat.extend(p.parts)
+        elif isinstance(p, Conc) and not p.items:
+            continue
+        else:
+            flat.append(p)
+    if len(flat) == 1:
+        return flat[0]
+    key = ("concat", tuple(id(p) for p in flat))
+    if key in ctx.hc:
+        return ctx.hc[key]
+    t = Concat(interp, flat, etype)
+    ctx.hc[key] = t
+    return t
+
+
+def mk_conc(interp, items, etype=None):
+    ctx = interp.ctx
+    try:
+        key = ("conc", tuple(_val_key(interp, x) for x in items), repr(etype))
+        if not all(interp.is_elem(x) for x in items):
+            key = None
+    except Exception:
+        key = None
+    if key is not None and key in ctx.hc:
+        return ctx.hc[key]
+    t = Conc(interp, items, etype)
+    if key is not None:
+        ctx.hc[key] = t
+    return t
+
+
+def mk_unary(interp, cls, inner):
+    ctx = interp.ctx
+    key = (cls.__name__, id(inner))
+    if key in ctx.hc:
+        return ctx.hc[key]
+    t = cls(interp, inner)
+    ctx.hc[key] = t
+    return t
+
+
 # --------------------------------------------------------------------------
 # path context
 
@@ -455,6 +593,8 @@ class Ctx:
         self.scope = explorer.scope
         self.children = 0
         self.inputs = {}
+        self.hc = {}
+        self.fwd_budget = 400
         if parent is not None:
             parent.ground()
             self.solver.add(parent.solver.assertions())
@@ -462,6 +602,7 @@ class Ctx:
             self.atoms = parent.atoms
             self._grounded = set(parent._grounded)
             self.inputs = parent.inputs
+            self.hc = dict(parent.hc)
 
     # naming -----------------------------------------------------------
     def fresh_name(self, base):
@@ -512,11 +653,55 @@ class Ctx:
             rounds += 1
             if rounds > 50:
                 raise EngineError("grounding does not terminate")
+            # forward propagation: images of source members in lists that carry universal facts
+            flagged = set()
+            work = [t for t in self.terms if (t.all_facts or t.pair_facts or t.adj_facts)]
+            while work:
+                t = work.pop()
+                if id(t) in flagged:
+                    continue
+                flagged.add(id(t))
+                if isinstance(t, FM):
+                    work.append(t.src)
+                elif isinstance(t, Concat):
+                    work.extend(t.parts)
+            for t in list(self.terms):
+                if id(t) not in flagged:
+                    continue
+                if isinstance(t, FM):
+                    done = t.__dict__.setdefault("_fwd", set())
+                    for sm in list(t.src.members):
+                        if sm.serial in done:
+                            continue
+                        done.add(sm.serial)
+                        # members that were created *from* this FM (backward) already have their image
+                        if any(m.origin is not None and isinstance(m.origin, tuple) and m.origin[0] is sm
+                               for m in t.members):
+                            continue
+                        if self.fwd_budget <= 0:
+                            continue
+                        self.fwd_budget -= 1
+                        t.forward(sm)
+                        changed = True
+                elif isinstance(t, Concat):
+                    done = t.__dict__.setdefault("_fwd", set())
+                    for pi, p in enumerate(t.parts):
+                        for pm in list(p.members):
+                            if pm.serial in done:
+                                continue
+                            done.add(pm.serial)
+                            if getattr(pm, "from_concat", None) is t:
+                                continue
+                            if self.fwd_budget <= 0:
+                                continue
+                            self.fwd_budget -= 1
+                            t.forward(pi, pm)
+                            changed = True
             for t in list(self.terms):
                 ms = list(t.members)
                 for mi, m in enumerate(ms):
                     for fi, (fc, fn, tag) in enumerate(list(t.all_facts)):
-                        key = (id(t), "all", fi, mi)
+                        key = (id(t), "all", fi, m.serial)
                         if key in self._grounded:
                             continue
                         self._grounded.add(key)
@@ -524,14 +709,14 @@ class Ctx:
                         changed = True
                 for (i1, m1), (i2, m2) in itertools.permutations(list(enumerate(ms)), 2):
                     for fi, (fc, fn, tag) in enumerate(list(t.pair_facts)):
-                        key = (id(t), "pair", fi, i1, i2)
+                        key = (id(t), "pair", fi, m1.serial, m2.serial)
                         if key in self._grounded:
                             continue
                         self._grounded.add(key)
                         self.assume(z3.Implies(z3.And(m1.cond, m2.cond, fc, m1.idx < m2.idx), fn(m1.elem, m2.elem)))
                         changed = True
                     for fi, (fc, fn, tag) in enumerate(list(t.adj_facts)):
-                        key = (id(t), "adj", fi, i1, i2)
+                        key = (id(t), "adj", fi, m1.serial, m2.serial)
                         if key in self._grounded:
                             continue
                         self._grounded.add(key)
